@@ -166,7 +166,7 @@ class C04(EditProp):
                   "rowan 0.16.1 performs them) refines the pure model for every history issued through paragraph handles obtained at ANY "
                   "earlier time - no panic, the document is the pure model's result with each edit applied where its handle's paragraph "
                   "currently is, every handle keeps denoting its paragraph (a removed paragraph lives on detached: Dead), so (4) holds for "
-                  "such histories; the deb822-store stream runs that model against the code with four handle registers, and deb822-edit "
+                  "such histories (C04_handles_history_every, C05_handles_history_every); the deb822-store stream runs that model against the code with four handle registers, and deb822-edit "
                   "performs every edit through handles obtained before all earlier edits. "
                   "Rename of a field whose value is empty is inside (4): Entry::new then writes one empty VALUE token, which the reader never "
                   "produces, so (4) says live_tree (coq/model/LiveTree.v): the tree with its empty VALUE tokens dropped is the tree of the "
